@@ -7,6 +7,8 @@ joins (any order, repetitions, arbitrary identifications), with no bound.
 -/
 import Pyiga.Proofs.Multipatch
 import Pyiga.Proofs.MultipatchMat
+import Pyiga.Proofs.MultipatchSlice
+import Mathlib.Logic.Equiv.Basic
 
 namespace Pyiga.Props.C14
 open Pyiga.MP Relation
@@ -68,15 +70,57 @@ theorem glue_numbering (P : Nat) (N : Nat → Nat) (L : List (Dof × Dof)) (hval
   obtain ⟨_, h2, h3⟩ := glue_spec P N L hval
   exact ⟨h3 g, fun ⟨x, hx, hg⟩ => hg ▸ h2 x hx⟩
 
+/-- the equivalence closure of the declared identifications, on the dofs that exist -/
+def dofSetoid (P : Nat) (N : Nat → Nat) (L : List (Dof × Dof)) : Setoid {x : Dof // ValidDof P N x} :=
+  ⟨fun x y => EqvGen (Declared L) x.1 y.1,
+   ⟨fun _ => EqvGen.refl _, fun h => EqvGen.symm _ _ h, fun h1 h2 => EqvGen.trans _ _ _ h1 h2⟩⟩
+
+/-- **numdofs = number of classes**: `global` induces a bijection between the classes of the
+equivalence closure (quotient of the existing dofs) and `Fin numdofs`. -/
+theorem glue_numdofs_eq_classes (P : Nat) (N : Nat → Nat) (L : List (Dof × Dof)) (hval : ValidPairs P N L) :
+    Nonempty (Quotient (dofSetoid P N L) ≃ Fin (globOf Cfg.repaired P N L).numdofs) := by
+  obtain ⟨h1, h2, h3⟩ := glue_spec P N L hval
+  let f : Quotient (dofSetoid P N L) → Fin (globOf Cfg.repaired P N L).numdofs :=
+    Quotient.lift (fun x => ⟨(globOf Cfg.repaired P N L).globalIdx x.1.1 x.1.2, h2 x.1 x.2⟩)
+      (fun a b hab => Fin.ext ((h1 a.1 b.1 a.2 b.2).2 hab))
+  refine ⟨Equiv.ofBijective f ⟨?_, ?_⟩⟩
+  · intro q1 q2
+    induction q1 using Quotient.inductionOn with | _ a =>
+    induction q2 using Quotient.inductionOn with | _ b =>
+    intro h
+    apply Quotient.sound
+    exact (h1 a.1 b.1 a.2 b.2).1 (Fin.ext_iff.1 h)
+  · rintro ⟨g, hg⟩
+    obtain ⟨x, hx, hgx⟩ := h3 g hg
+    exact ⟨Quotient.mk _ ⟨x, hx⟩, Fin.ext hgx⟩
+
 /-- **glue_spec for histories of API calls** (`join_dofs` with its assertions, `join_boundaries`
 through `boundary_dofs` with flips; a call that raises changes nothing): the finalized object is
-glued along the identifications declared by the accepted calls. -/
-theorem glue_spec_calls (shapes : List (List Nat)) (calls : List Call)
-    (hval : ValidPairs shapes.length (fun p => Index.prod (shapes.getD p [])) (declaredOf shapes calls)) :
+glued along the identifications declared by the accepted calls.  Only `join_dofs` calls carry a
+hypothesis (their dofs must exist); the dofs enumerated by `join_boundaries` always exist
+(`boundaryDofs_lt`), so histories of `join_boundaries` calls need no hypothesis at all. -/
+theorem glue_spec_calls (shapes : List (List Nat)) (calls : List Call) (hval : ∀ c ∈ calls, CallValid shapes c) :
     Glued ⟨shapes.length, fun p => Index.prod (shapes.getD p []),
       finalize Cfg.repaired (runCalls Cfg.repaired shapes State.init calls)⟩ (declaredOf shapes calls) := by
   rw [runCalls_eq]
-  exact glue_spec _ _ _ hval
+  exact glue_spec _ _ _ (declaredOf_valid shapes calls hval)
+
+/-- every history of `join_boundaries` calls (any patches, faces, flips, order, repetition, also
+calls that raise) glues exactly the equivalence closure of the face pairings -/
+theorem glue_spec_boundaries (shapes : List (List Nat)) (calls : List Call)
+    (hjb : ∀ c ∈ calls, ∃ p1 ax1 s1 p2 ax2 s2 fl, c = Call.jb p1 ax1 s1 p2 ax2 s2 fl) :
+    Glued ⟨shapes.length, fun p => Index.prod (shapes.getD p []),
+      finalize Cfg.repaired (runCalls Cfg.repaired shapes State.init calls)⟩ (declaredOf shapes calls) := by
+  apply glue_spec_calls
+  intro c hc
+  obtain ⟨p1, ax1, s1, p2, ax2, s2, fl, rfl⟩ := hjb c hc
+  trivial
+
+/-- non-vacuity: the cross-point history as `join_boundaries` calls declares `witnessD10`'s pairs -/
+example : declaredOf [[2,2],[2,2],[2,2],[2,2]]
+    [.jb 0 1 1 1 1 0 none, .jb 2 1 1 3 1 0 none, .jb 0 0 1 2 0 0 none, .jb 1 0 1 3 0 0 (some [false])] =
+    [((0,1),(1,0)), ((0,3),(1,2)),  ((2,1),(3,0)), ((2,3),(3,2)),
+     ((0,2),(2,0)), ((0,3),(2,1)),  ((1,2),(3,0)), ((1,3),(3,1))] := by decide
 
 /-- on histories without a join that meets two existing classes the pinned source and the repaired
 algorithm compute the same tables -/
